@@ -730,10 +730,17 @@ class Check(BaseCheck):
         args = ['FACT(2000)', 'FACT(5000)', '10^4400', '-10^4400', '2^40000', '"' + 'x' * 5000 + '"', '1E+308', '1E-320', 'lst', 'A1:B2', '""', 'NULL', 'TRUE', '"#N/A"', '1/0', 'tagv', '-1', '0', '2.5',
                 '{1,2,3}', 'DATE(9999,12,31)', '"2020-02-30"', 'REPT("ab",3000)', '123456789012345678901234567890']
         names = formulas.supported()[spec['i']::spec['k']]
+        # work without bound on the unchanged tree (DESIGN 4: a count of 10^4400 is looped over or raised to): these cannot disturb anybody
+        # before the wall watchdog ends the shard, so they are left out by name and counted
+        unbounded = {('FACTDOUBLE', '%s(%s)'), ('FACTDOUBLE', '%s(%s,2)'), ('ROUND', '%s(1,%s)'), ('ROUNDUP', '%s(1,%s)'), ('ROUNDDOWN', '%s(1,%s)')}
+        huge = {'FACT(2000)', 'FACT(5000)', '10^4400', '-10^4400', '2^40000', '123456789012345678901234567890'}
         n = 0
         for fn in names:
             for k, a in enumerate(args):
                 for shape in ('%s(%s)', '%s(%s,2)', '%s(1,%s)'):
+                    if a in huge and (fn, shape) in unbounded:
+                        rec.count('disturbers_left_out_for_unbounded_work')
+                        continue
                     g = shape % (fn, a)
                     who = (n % 5)
                     if who < 3:
